@@ -641,8 +641,9 @@ def _gen_feature(rng):
         x = "".join(rng.choice(alpha) for _ in range(total))
         ops += [f"getf {_feat_s(f)}", f"setf {_feat_s(f)} {x}", f"getf {_feat_s(f)}"]
     # an overlapping (but tie-free) feature is read only
-    l1 = _rand_loc(rng, start, start + n - 1, "+", 0)
-    l2 = _rand_loc(rng, start, start + n - 1, "+", 1)
+    ost = rng.choice("+-")
+    l1 = _rand_loc(rng, start, start + n - 1, ost, 0)
+    l2 = _rand_loc(rng, start, start + n - 1, ost, 1)
     if not _has_ties([l1, l2]):
         ops.append(f"getf {_feat_s((0, 0, [l1, l2]))}")
     ops.append("show")
